@@ -3,8 +3,9 @@
    Sources modelled, line by line:
      github.com/go-kid/strings2 v0.0.1  split.go : Split / SplitWithConfig / Index / IndexSkipBlocks /
                                                    contains / DefaultSplitBlock            (module cache)
-     /repo/component_definition/arg.go       : TagArg.Parse, Set, formatArgType, Find, Has, isIntersect
-     /repo/component_definition/property.go  : NewProperty (TagVal = Parse result), IsRequired
+     /repo/component_definition/arg.go       : TagArg.Parse, Set, Add, formatArgType, Find, Has, isIntersect, ForEach /
+                                               String (rendering of the entries in key order)
+     /repo/component_definition/property.go  : NewProperty (TagVal = Parse result), IsRequired, SetArg / AddArg / Args
      /repo/container/processors/value_aware_post_processors.go : the `prop` shorthand rewrite
      /repo/container/processors/default_tag_scan_definition_registry_post_processor.go : Required default
 
@@ -214,6 +215,38 @@ Definition arg_set (m : argmap) (t : bytes) (val : list bytes) : res argmap :=
   | _ => bind (format_arg_type t) (fun k => Ok (map_put m k val))
   end.
 
+(* Add(argType, val...): if argType == "" { return }; argType = formatArgType(argType);
+   m[argType] = append(m[argType], val...)
+   (for a name that is not in the map yet m[argType] is nil and the append yields val - with no values at all the name
+   is present with an empty list, as after Set without values) *)
+Definition arg_add (m : argmap) (t : bytes) (val : list bytes) : res argmap :=
+  match t with
+  | [] => Ok m
+  | _ => bind (format_arg_type t) (fun k =>
+         Ok (map_put m k (match map_get m k with Some old => old ++ val | None => val end)))
+  end.
+
+(* ---- the exported argument API of a parsed Property ------------------------------------------------
+   Property.SetArg(t, val...) = args.Set(t, val...), Property.AddArg(t, val...) = args.Add(t, val...), Property.Args()
+   hands out the map itself (TagArg.Set / Add are exported too).  An application-defined post-processor adjusts the
+   arguments of the points it is shown this way - e.g. AddArg("qualifier", profile) in the spelling tags use - and the
+   built-in processors that run after it read them through Find / Has with the canonical constants. *)
+Inductive arg_op : Type :=
+| OpSet (t : bytes) (val : list bytes)
+| OpAdd (t : bytes) (val : list bytes).
+
+Definition apply_op (m : argmap) (o : arg_op) : res argmap :=
+  match o with
+  | OpSet t val => arg_set m t val
+  | OpAdd t val => arg_add m t val
+  end.
+
+Fixpoint apply_ops (m : argmap) (ops : list arg_op) : res argmap :=
+  match ops with
+  | [] => Ok m
+  | o :: r => bind (apply_op m o) (fun m' => apply_ops m' r)
+  end.
+
 (* the loop over exps in Parse; "=" is byte 61, " " is byte 32 *)
 Fixpoint parse_exps (exps : list bytes) (m : argmap) : res argmap :=
   match exps with
@@ -341,6 +374,11 @@ Definition upper_first (t : bytes) : bytes :=
 (* the argument map a structured tag denotes: Set in order, later duplicates override *)
 Definition set_all (args : list (bytes * list bytes)) : argmap :=
   fold_left (fun m a => map_put m (upper_first (fst a)) (snd a)) args [].
+
+(* TagArg.String() over the entries in ForEach order (keys sorted bytewise):
+     "." + key + "(" + strings.Join(args, ",") + ")"  per entry      "." = 46, "(" = 40, ")" = 41 *)
+Definition args_string (entries : argmap) : bytes :=
+  flat_map (fun kv : bytes * list bytes => 46%N :: fst kv ++ 40%N :: join 44 (snd kv) ++ [41%N]) entries.
 
 (* ASCII letters and flipping the case of one *)
 Definition is_ascii_letter (b : N) : bool :=
